@@ -14,6 +14,15 @@ package worker
 // free-running) and a sub-seed; this file expands the sub-seed into the
 // concrete history, executes it and evaluates the oracles next to the
 // observations (the model is one net/http/cookiejar per session ID).
+//
+// A third of the requests of a sequential history are followed up at the
+// client-visible moment of their response: the recorder under the session
+// handler calls back when the final WriteHeader reaches it (that is the
+// point at which the agent hands the response head to the proxy), and the
+// callback - the handler goroutine stays inside that WriteHeader, as it does
+// in the agent's unbuffered hand-off - serves the same session's next
+// request on another goroutine. A client holds the cookies of a response
+// head it has seen, so that request must meet them at the backend.
 
 import (
 	"bufio"
@@ -92,6 +101,29 @@ type C10Step struct {
 	ExpectOwn     []string `json:"expect_own,omitempty"`
 	ExpectJar     []string `json:"expect_from_jar,omitempty"`
 	BackendCalled bool     `json:"backend_called"`
+
+	Follow *C10Follow `json:"followup_at_response_head,omitempty"`
+}
+
+// C10Follow is the same session's next request, sent at the moment the
+// response head of the step's request reached the writer under the session
+// handler (the handler goroutine had not returned from that WriteHeader).
+type C10Follow struct {
+	Host       string   `json:"host"`
+	Target     string   `json:"target"`
+	SessionID  string   `json:"session_id"`
+	CookieLine string   `json:"client_cookie_line"`
+	BackendSaw []string `json:"backend_saw_cookie"`
+	ClientSet  []string `json:"client_saw_set_cookie,omitempty"`
+	ExpectJar  []string `json:"expect_from_jar"`
+	Settled    []string `json:"backend_saw_cookie_when_repeated_after_return,omitempty"`
+
+	own      c10Pair
+	called   bool
+	sent     bool
+	hung     bool
+	panicked string
+	problem  string
 }
 
 type C10Result struct {
@@ -104,6 +136,8 @@ type C10Result struct {
 	JarCookies int      `json:"jar_cookies"`     // cookies restored from jars and compared
 	Issued     int      `json:"session_cookies"` // session cookies issued and attribute-checked
 	AttrKinds  []string `json:"attr_kinds,omitempty"`
+	Follows    int      `json:"followups_at_head,omitempty"`       // same-session requests served at the moment a response head was published
+	FollowsNew int      `json:"followups_fresh_cookie,omitempty"` // of those, expecting a cookie that very response head had set
 
 	Violations []C10Viol   `json:"violations,omitempty"`
 	Problems   []string    `json:"problems,omitempty"` // harness-level: decided nothing
@@ -177,6 +211,7 @@ type c10Recorder struct {
 	final    http.Header
 	interims []int
 	body     bytes.Buffer
+	onHead   func(final http.Header) // called once, when the response head becomes client-visible
 }
 
 func newC10Recorder() *c10Recorder { return &c10Recorder{h: http.Header{}} }
@@ -194,6 +229,9 @@ func (w *c10Recorder) WriteHeader(status int) {
 	w.wrote = true
 	w.status = status
 	w.final = w.h.Clone()
+	if w.onHead != nil {
+		w.onHead(w.final.Clone())
+	}
 }
 
 func (w *c10Recorder) Write(b []byte) (int, error) {
@@ -352,6 +390,7 @@ type c10Seq struct {
 		saw      []string
 		called   bool
 	}
+	fol *C10Follow // follow-up in flight (its backend call runs while cur's is inside WriteHeader)
 
 	// model
 	ids       []string                  // logical sessions -> issued ID ("" = none yet)
@@ -410,7 +449,7 @@ func c10RunSeq(c C10Case) C10Result {
 			break
 		}
 	}
-	res.Requests = len(s.trace)
+	res.Requests = len(s.trace) + res.Follows
 	for k := range s.kinds {
 		res.AttrKinds = append(res.AttrKinds, k)
 	}
@@ -454,6 +493,16 @@ func c10KindClass(kinds map[string]bool) string {
 // backend is the scripted backend behind the session handler. It makes the
 // calls httputil.ReverseProxy makes on its ResponseWriter.
 func (s *c10Seq) backend(w http.ResponseWriter, r *http.Request) {
+	if r.Header.Get("X-C10-Follow") != "" {
+		if f := s.fol; f != nil {
+			f.called = true
+			f.BackendSaw = append([]string{}, r.Header["Cookie"]...)
+		}
+		w.Header().Set("Content-Type", "text/plain")
+		w.WriteHeader(http.StatusOK)
+		w.Write([]byte("ok"))
+		return
+	}
 	s.cur.called = true
 	s.cur.saw = append([]string(nil), r.Header["Cookie"]...)
 	h := w.Header()
@@ -823,8 +872,20 @@ func (s *c10Seq) step(n int) bool {
 	st.ExpectOwn, st.ExpectJar = c10PairStrings(own), c10PairStrings(jarPairs)
 
 	rec := newC10Recorder()
+	var fol *C10Follow
+	if rng.Intn(3) == 0 {
+		fol = &C10Follow{Host: s.hosts[rng.Intn(len(s.hosts))], Target: c10Targets[rng.Intn(len(c10Targets))], own: c10Pair{"react", fmt.Sprintf("n%d", n)}}
+		if c.Kind == "evict" {
+			fol.Host = s.hosts[0]
+		}
+		rec.onHead = func(final http.Header) { s.followUp(fol, presented, final) }
+		s.kinds["followup-at-response-head"] = true
+	}
 	t0 := time.Now()
 	panicked, hung := c10Serve(s.handler, rec, req)
+	if fol != nil && !hung && fol.sent && !fol.hung {
+		st.Follow = fol
+	}
 	if hung {
 		// the handler goroutine may still be running: do not touch what it writes
 		s.trace = append(s.trace, st)
@@ -967,7 +1028,148 @@ func (s *c10Seq) step(n int) bool {
 	} else if key != "" && s.jars[key] == nil {
 		s.jars[key] = c10NewJar()
 	}
-	return true
+	return s.judgeFollow(n, &st, fol, key, tag, backendPairs)
+}
+
+// followUp runs on the handler goroutine of the request whose response head
+// has just reached the recorder (inside the recorder's WriteHeader): the
+// client has the head, so it may send the session's next request now. That
+// request is served on its own bare goroutine and awaited here, i.e. the
+// schedule is "the first handler goroutine does not run again until the
+// client's reaction has reached the backend".
+func (s *c10Seq) followUp(f *C10Follow, presented string, final http.Header) {
+	id := presented
+	if id == "" {
+		for _, line := range final["Set-Cookie"] {
+			if nm, v, _ := c10ParseSetCookie(line); nm == s.c.CookieName && v != "" {
+				id = v
+			}
+		}
+	}
+	if id == "" {
+		return // no session to continue; the step's own oracle reports the missing session cookie
+	}
+	f.SessionID = id
+	f.CookieLine = f.own.String() + "; " + s.c.CookieName + "=" + id
+	raw := fmt.Sprintf("GET %s HTTP/1.1\r\nHost: %s\r\nUser-Agent: c10\r\nX-C10-Follow: 1\r\nCookie: %s\r\n\r\n", f.Target, f.Host, f.CookieLine)
+	req, err := c10Request(raw)
+	if err != nil {
+		f.problem = "harness follow-up request unparsable: " + err.Error()
+		return
+	}
+	s.fol = f
+	rec := newC10Recorder()
+	f.panicked, f.hung = c10Serve(s.handler, rec, req)
+	if f.hung {
+		return // its goroutine may still write into f: f is not read again
+	}
+	s.fol = nil
+	f.sent = true
+	if rec.final != nil {
+		f.ClientSet = append([]string(nil), rec.final["Set-Cookie"]...)
+	}
+}
+
+// judgeFollow evaluates the follow-up of step n after the model jar has taken
+// the step's Set-Cookie list: the follow-up was sent by a client that had
+// seen that response head.
+func (s *c10Seq) judgeFollow(n int, st *C10Step, f *C10Follow, key string, tag int, headPairs map[string]bool) bool {
+	if f == nil {
+		return true
+	}
+	c := s.c
+	switch {
+	case f.problem != "":
+		s.res.Problems = append(s.res.Problems, fmt.Sprintf("step %d: %s", n, f.problem))
+		return false
+	case f.hung:
+		s.res.Problems = append(s.res.Problems, fmt.Sprintf("step %d: the follow-up request sent at the response head did not return within 20s", n))
+		return false
+	case !f.sent:
+		return true
+	case f.panicked != "":
+		s.violate(n, "handler-panic", fmt.Sprintf("step %d: the session handler panicked on the session's next request, sent when the response head arrived (in the agent this goroutine is bare: process exit): %s", n, f.panicked))
+		return false
+	case !f.called:
+		s.res.Problems = append(s.res.Problems, fmt.Sprintf("step %d: backend handler was not invoked for the follow-up request", n))
+		return false
+	case f.SessionID != key:
+		s.res.Problems = append(s.res.Problems, fmt.Sprintf("step %d: follow-up bore session %q, the model continued %q", n, c10Trunc(f.SessionID), c10Trunc(key)))
+		return false
+	}
+	for _, line := range f.ClientSet {
+		nm, _, _ := c10ParseSetCookie(line)
+		sig := "unexpected-set-cookie"
+		if nm == c.CookieName {
+			sig = "session-cookie-issued-to-bearer"
+		}
+		s.violate(n, sig, fmt.Sprintf("step %d: the follow-up request presented %s=%s, its backend response set no cookie, and the client received Set-Cookie %q", n, c.CookieName, c10Trunc(f.SessionID), line))
+		return false
+	}
+	fu, err := url.Parse("https://" + f.Host + f.Target)
+	if err != nil {
+		s.res.Problems = append(s.res.Problems, fmt.Sprintf("step %d: harness url unparsable: %v", n, err))
+		return false
+	}
+	want := c10JarPairs(s.jars[key], fu)
+	f.ExpectJar = c10PairStrings(want)
+	s.res.Follows++
+	s.res.JarCookies += len(want)
+	for _, p := range want {
+		if headPairs[p.String()] {
+			s.res.FollowsNew++
+			break
+		}
+	}
+	judge := func(lines []string) (extra, missing []c10Pair, msg, sig string) {
+		rest, lostOwn := c10Sub(c10ParseCookieLines(lines), []c10Pair{f.own})
+		if len(lostOwn) > 0 {
+			return nil, nil, fmt.Sprintf("client cookie %q did not reach the backend unchanged; backend saw %q", f.own.String(), lines), "client-cookie-lost-or-altered"
+		}
+		for _, p := range rest {
+			if p.Name == c.CookieName && p.Value == f.SessionID {
+				return nil, nil, fmt.Sprintf("the backend received the session cookie itself (%s=%s); Cookie header at the backend: %q", p.Name, c10Trunc(p.Value), lines), "session-cookie-reached-backend"
+			}
+		}
+		extra, missing = c10Sub(rest, want)
+		return extra, missing, "", ""
+	}
+	extra, missing, msg, sig := judge(f.BackendSaw)
+	if sig != "" {
+		s.violate(n, sig, fmt.Sprintf("step %d, follow-up sent at the response head: %s", n, msg))
+		return false
+	}
+	if len(extra) == 0 && len(missing) == 0 {
+		return true
+	}
+	if len(extra) == 0 && strings.HasPrefix(st.Who, "garbage") {
+		s.kinds["id:unknown-forgotten"] = true
+		return true // a session ID the agent never issued: isolation only
+	}
+	myTag := strconv.Itoa(tag)
+	for _, p := range extra {
+		if m := c10TagRe.FindStringSubmatch(p.Value); m != nil && m[1] != myTag {
+			s.violate(n, "cross-session-cookie", fmt.Sprintf("step %d (%s, tag x%s), follow-up sent at the response head: the backend received %q, a cookie set in another session (tag x%s); expected from this session's jar %q, backend saw %q", n, st.Who, myTag, p.String(), m[1], f.ExpectJar, f.BackendSaw))
+			return false
+		}
+	}
+	// Diagnosis only (chooses the signature): the same request once more, now that the first
+	// handler has returned. If the backend then sees what the jar holds, the cookies were there
+	// too late; if not, the jar is wrong independently of the schedule.
+	again := &C10Follow{Host: f.Host, Target: f.Target, own: f.own}
+	s.followUp(again, f.SessionID, nil)
+	sig = "backend-cookies-differ-from-jar"
+	when := ""
+	if again.sent && again.called && again.panicked == "" {
+		f.Settled = again.BackendSaw
+		if e2, m2, _, sig2 := judge(again.BackendSaw); sig2 == "" && len(e2) == 0 && len(m2) == 0 {
+			sig = "jar-updated-after-response-head-published"
+			when = "; the same request repeated after the first handler had returned reached the backend with the jar's cookies " + fmt.Sprintf("%q", again.BackendSaw)
+		}
+	}
+	s.violate(n, sig, fmt.Sprintf("step %d (%s %s%s, %s): the client sent the session's next request (GET %s%s) when it had received the response head (backend Set-Cookie %q; the handler had not yet returned from WriteHeader): backend cookies differ from the model jar: unexpected %q, missing %q (jar %q, backend saw %q)%s",
+		n, st.Method, st.Host, st.Target, st.Who, f.Host, f.Target, st.BackendSet, c10PairStrings(extra), c10PairStrings(missing), f.ExpectJar, f.BackendSaw, when))
+	return false
 }
 
 func c10Trunc(s string) string {
